@@ -193,18 +193,18 @@ CLAIMED.update({
 
 # Additions made after the independently seeded changes (see DESIGN.md §13): appended to the level texts.
 ADDENDA = {
-    "C57": " CLEAR_FEATURE(ENDPOINT_HALT) for 0x84, 0x04, 0x83 and absent endpoints between transfers.",
+    "C57": " CLEAR_FEATURE(ENDPOINT_HALT) for 0x84, 0x04, 0x83 and absent endpoints between transfers. Composite steps: un-ACKed data IN, then another endpoint's transfer with a host ACK, then the retry.",
     "C55": " The caller-provided output signal is observed as well as the returned one.",
-    "C46": " One case in four runs 28-66 extra full packets (5-bit sequence number wraps).",
+    "C46": " One case in four runs 28-66 extra full packets (5-bit sequence number wraps). The host may re-poll a flow-controlled endpoint without ERDY; one recorded known finding (re-poll while the ERDY is pending).",
     "C44": " Nine clock frequencies incl. power-of-two cycle counts for 1 ms and 10 us.",
     "C39": " Partner ordering mismatch: LBAD overtaking LGOODs still pending for earlier headers, optionally aimed at the end of the header in flight.",
-    "C36": " One DATA packet in ten carries 65-1024 bytes.",
-    "C31": " Words of one repeated control code (SKP weighted) and framing ordered sets next to data.",
+    "C36": " One DATA packet in ten carries 65-1024 bytes. A quarter of the payloads contain word-aligned byte images of framing ordered sets sent as data.",
+    "C31": " Words of one repeated control code (SKP weighted) and framing ordered sets next to data. Plus a Sub on the real USB3PhysicalLayer transmit path (scrambler + SKP inserter) against the reference keystream.",
     "C24": " Plus Subs on a bus with a reset pin: multi-epoch usb-domain reset histories with a fresh PHY model after every reset.",
-    "C09": " Plus a Sub on the whole USBDevice (8 configurations) with control transfers completed or abandoned at any packet boundary.",
+    "C09": " Plus a Sub on the whole USBDevice (8 configurations) with control transfers completed or abandoned at any packet boundary. wLength over the full 16 bits with weight around m*2^n.",
     "C08": " Host transactions with OTHER devices on the bus (foreign-address token, idle bus, host ACK) between the stages; one recorded known finding (late foreign-device ACK after an un-ACKed status ZLP).",
-    "C05": " A segment may begin with a synchronous reset of the usb domain instead of a start.",
-    "C01": " Several token images glued into one over-long packet (bad/valid head + filler + well-formed own token or SOF).",
+    "C05": " A segment may begin with a synchronous reset of the usb domain instead of a start. One enumerated 66300-cycle silence per configuration and speed.",
+    "C01": " Several token images glued into one over-long packet (bad/valid head + filler + well-formed own token or SOF). The detector's speed input is driven HIGH/FULL/LOW per packet.",
     "C02": " Also packets with a non-data first byte and an embedded '<data PID> body CRC16'.",
     "C06": " A second Sub wires token detector (generated 7-bit device address) + CRC + timer + non-standalone decoder as device.py/control.py do; near-miss SETUP-like tokens (bad check nibble / CRC5 / foreign address) directly before valid data. CRC-valid over-long packets (payload P||crc16(P)||more; valid packet + trailing bytes).",
     "C07": " Control writes with a data stage abandoned after SETUP or 1-2 data packets, then control reads.",
